@@ -40,6 +40,9 @@ SUGGESTED = {
     'C12': [('kdfs', 'kdfs', None, None)],
     'C14': [('bigint', 'bigint', None, ['.exact', 'raw.'])],
     'C16': [('accel', 'accel', None, None), ('bigint_agree', 'bigint', ['ops.'], ['agree.'])],
+    # copy() independence of the native states behind hashes / XOFs / MACs, incl. a copy taken while squeezing (the C copy functions are
+    # assumed by the Python copy() contracts; seeded change C19-keccak-copy-valid-bytes-only)
+    'C19': [('hash_copy', 'hashes', None, ['.copy'])],
 }
 
 
